@@ -14,7 +14,6 @@ import (
 
 	"github.com/tink-crypto/tink-go/v2/hybrid"
 	"github.com/tink-crypto/tink-go/v2/hybrid/hpke"
-	internalhpke "github.com/tink-crypto/tink-go/v2/hybrid/internal/hpke"
 	"github.com/tink-crypto/tink-go/v2/internal/internalapi"
 	"github.com/tink-crypto/tink-go/v2/tink"
 	"github.com/tink-crypto/tink-go/v2/verifharness/internal/detrand"
@@ -28,46 +27,43 @@ import (
 type kemSpec struct {
 	name  string
 	id    hpke.KEMID
-	raw   internalhpke.KEMID
 	ref   uint16
 	curve *eciesref.Curve // NIST KEMs: the curve constants for point surgery
 	cheap bool            // KEM operations well below a millisecond
 }
 
 var kemSpecs = []kemSpec{
-	{"DHKEM_P256_HKDF_SHA256", hpke.DHKEM_P256_HKDF_SHA256, internalhpke.P256HKDFSHA256, hpkeref.KEMP256, eciesref.P256, true},
-	{"DHKEM_P384_HKDF_SHA384", hpke.DHKEM_P384_HKDF_SHA384, internalhpke.P384HKDFSHA384, hpkeref.KEMP384, eciesref.P384, false},
-	{"DHKEM_P521_HKDF_SHA512", hpke.DHKEM_P521_HKDF_SHA512, internalhpke.P521HKDFSHA512, hpkeref.KEMP521, eciesref.P521, false},
-	{"DHKEM_X25519_HKDF_SHA256", hpke.DHKEM_X25519_HKDF_SHA256, internalhpke.X25519HKDFSHA256, hpkeref.KEMX25519, nil, true},
-	{"X_WING", hpke.X_WING, internalhpke.XWing, hpkeref.KEMXWing, nil, true},
-	{"ML_KEM768", hpke.ML_KEM768, internalhpke.MLKEM768, hpkeref.KEMMLKEM768, nil, true},
-	{"ML_KEM1024", hpke.ML_KEM1024, internalhpke.MLKEM1024, hpkeref.KEMMLKEM1K, nil, true},
+	{"DHKEM_P256_HKDF_SHA256", hpke.DHKEM_P256_HKDF_SHA256, hpkeref.KEMP256, eciesref.P256, true},
+	{"DHKEM_P384_HKDF_SHA384", hpke.DHKEM_P384_HKDF_SHA384, hpkeref.KEMP384, eciesref.P384, false},
+	{"DHKEM_P521_HKDF_SHA512", hpke.DHKEM_P521_HKDF_SHA512, hpkeref.KEMP521, eciesref.P521, false},
+	{"DHKEM_X25519_HKDF_SHA256", hpke.DHKEM_X25519_HKDF_SHA256, hpkeref.KEMX25519, nil, true},
+	{"X_WING", hpke.X_WING, hpkeref.KEMXWing, nil, true},
+	{"ML_KEM768", hpke.ML_KEM768, hpkeref.KEMMLKEM768, nil, true},
+	{"ML_KEM1024", hpke.ML_KEM1024, hpkeref.KEMMLKEM1K, nil, true},
 }
 
 type kdfSpec struct {
 	name string
 	id   hpke.KDFID
-	raw  internalhpke.KDFID
 	ref  uint16
 }
 
 var kdfSpecs = []kdfSpec{
-	{"HKDF_SHA256", hpke.HKDFSHA256, internalhpke.HKDFSHA256, hpkeref.KDFSHA256},
-	{"HKDF_SHA384", hpke.HKDFSHA384, internalhpke.HKDFSHA384, hpkeref.KDFSHA384},
-	{"HKDF_SHA512", hpke.HKDFSHA512, internalhpke.HKDFSHA512, hpkeref.KDFSHA512},
+	{"HKDF_SHA256", hpke.HKDFSHA256, hpkeref.KDFSHA256},
+	{"HKDF_SHA384", hpke.HKDFSHA384, hpkeref.KDFSHA384},
+	{"HKDF_SHA512", hpke.HKDFSHA512, hpkeref.KDFSHA512},
 }
 
 type aeadSpec struct {
 	name string
 	id   hpke.AEADID
-	raw  internalhpke.AEADID
 	ref  uint16
 }
 
 var aeadSpecs = []aeadSpec{
-	{"AES_128_GCM", hpke.AES128GCM, internalhpke.AES128GCM, hpkeref.AEADAES128GCM},
-	{"AES_256_GCM", hpke.AES256GCM, internalhpke.AES256GCM, hpkeref.AEADAES256GCM},
-	{"CHACHA20_POLY1305", hpke.ChaCha20Poly1305, internalhpke.ChaCha20Poly1305, hpkeref.AEADChaCha},
+	{"AES_128_GCM", hpke.AES128GCM, hpkeref.AEADAES128GCM},
+	{"AES_256_GCM", hpke.AES256GCM, hpkeref.AEADAES256GCM},
+	{"CHACHA20_POLY1305", hpke.ChaCha20Poly1305, hpkeref.AEADChaCha},
 }
 
 func hpkeVariant(v string) hpke.Variant {
@@ -166,13 +162,6 @@ func buildHPKE(k kemSpec, d kdfSpec, a aeadSpec, variant string, id uint32, rout
 		if c.dec, err = hpke.NewHybridDecrypt(priv, internalapi.Token{}); err != nil {
 			return nil, fmt.Errorf("hpke.NewHybridDecrypt: %w", err)
 		}
-	case "raw": // the unprefixed implementation underneath; NO_PREFIX only
-		if c.enc, err = internalhpke.NewEncrypt(c.pk, k.raw, d.raw, a.raw); err != nil {
-			return nil, fmt.Errorf("internal NewEncrypt: %w", err)
-		}
-		if c.dec, err = internalhpke.NewDecrypt(tk.Secret(sk), k.raw, d.raw, a.raw); err != nil {
-			return nil, fmt.Errorf("internal NewDecrypt: %w", err)
-		}
 	default:
 		return nil, fmt.Errorf("unknown route %s", route)
 	}
@@ -202,9 +191,6 @@ func drawHPKE(t *rapid.T) *hpkeCase {
 	a := rapid.SampledFrom(aeadSpecs).Draw(t, "aead")
 	variant := rapid.SampledFrom(threeVariants).Draw(t, "variant")
 	route := rapid.SampledFrom([]string{"handle", "key"}).Draw(t, "route")
-	if variant == tk.NoPrefix && rapid.IntRange(0, 2).Draw(t, "rawroute") == 0 {
-		route = "raw"
-	}
 	id := uint32(0)
 	if variant != tk.NoPrefix {
 		id = gen.KeyID(t, "id")
@@ -236,7 +222,7 @@ func (c *hpkeCase) otherPrivate(t *rapid.T) ([]byte, bool) {
 func (c *hpkeCase) kemCandidates(t *rapid.T, r *rejecter, ct, info []byte) {
 	plen := len(c.prefix())
 	enc, payload := ct[plen:plen+c.nenc], ct[plen+c.nenc:]
-	with := func(kind string, e []byte) { r.mustReject(kind, cat(ct[:plen], e, payload), info) }
+	with := func(kind string, e []byte) { r.costly(kind, cat(ct[:plen], e, payload), info) }
 	with("enc-zero", make([]byte, c.nenc))
 	with("enc-ff", bytes.Repeat([]byte{0xff}, c.nenc))
 	if cv := c.kem.curve; cv != nil {
@@ -389,6 +375,7 @@ func checkHPKE(t *rapid.T, c *hpkeCase, pt, info []byte) int {
 
 	// --- everything else must be refused -------------------------------------------------------
 	r := newRejecter(t, c.dec, desc)
+	r.light = !c.kem.cheap
 	r.genuine(ct, info)
 	r.genuine(rct, info)
 	r.genuine(sct, info)
@@ -411,16 +398,13 @@ func checkHPKE(t *rapid.T, c *hpkeCase, pt, info []byte) int {
 	}
 	// the same suite with one identifier changed (only the key schedule's suite_id differs)
 	for _, other := range aeadSpecs {
-		if nkO, _, _ := hpkeref.AEADSizes(other.ref); other.ref != c.aead.ref {
-			nk, _, _ := hpkeref.AEADSizes(c.aead.ref)
-			if nkO != nk {
-				continue
-			}
+		if other.ref != c.aead.ref {
 			s2 := c.suite
 			s2.AEAD = other.ref
 			if e, b, err := hpkeref.Seal(s2, c.pk, info, pt, nil); err == nil {
 				r.mustReject("ref-other-aead-id", cat(prefix, e, b), info)
 			}
+			break
 		}
 	}
 	for _, other := range kdfSpecs {
@@ -459,15 +443,9 @@ func TestHPKE(t *testing.T) {
 		info := gen.BytesOrNil(rt, "info", 128)
 		n := checkHPKE(rt, c, pt, info)
 		class := fmt.Sprintf("%s/%s/%s/%s/%s/%s", c.kem.name, c.kdf.name, c.aead.name, c.variant, c.route, infoClass(info))
-		evid.Case(class, true, evid.NewH().S(c.String()).B(pt).B(info).I(int64(len(info))-btoi(info == nil)).Sum(), func() any {
+		evid.Case(class, true, evid.NewH().S(c.String()).B(pt).B(info).S(infoClass(info)).Sum(), func() any {
 			return map[string]any{"case": c.String(), "pt": gen.Hex(pt), "info": gen.Hex(info), "candidates": n}
 		})
 	})
 }
 
-func btoi(b bool) int64 {
-	if b {
-		return 1
-	}
-	return 0
-}
